@@ -90,6 +90,9 @@ ob("O-C20-array-short", ["C20", "C05"], S, "c20_array_short", "array_to_datetime
 ob("O-C20-seconds", ["C20", "C05"], S, "c20_array_seconds", "array_to_datetime, seconds field: a second value inside the i8 range is passed as its floor; NaN and out-of-range values are never turned into a valid second 0..=59; a non-number gives None", [TIME + "array_to_datetime"], kind="trait-contract", stubs=["DateTime::new"],
    inlang={"inputs": ["AnyVal"], "filter": "[2000,0,1,0,0,$a]|mktime", "expect": "error_if_nonfinite", "doc": "a = the seconds value of the counterexample"})
 ob("O-C20-fields", ["C20"], S, "c20_datetime_to_array", "datetime_to_array: [year, month - 1, day, hour, minute, seconds, weekday from Sunday, day of year - 1] of what jiff's accessors report, seconds an integer when the sub-second part is zero and second + ns / 10^9 otherwise, for every value in the accessors' documented ranges", [TIME + "datetime_to_array"], kind="trait-contract", solver="cvc5", stubs=["DateTime::year", "DateTime::month", "DateTime::day", "DateTime::hour", "DateTime::minute", "DateTime::second", "DateTime::subsec_nanosecond", "DateTime::weekday", "DateTime::day_of_year"])
+ob("O-C13-offset2", ["C13", "C05"], S, "c13_char_of_byte_2", "ByteChar::char_of_byte (regex match offsets): for two successive capture-group offsets on character boundaries, in any order, each call returns the number of characters before the offset (never None, which would panic in Match::new)", ["jaq-std/src/regex.rs::ByteChar::char_of_byte", "jaq-std/src/regex.rs::ByteChar::new"], label="bounded", bound="all byte strings of length <= 2, all pairs of boundary offsets", composes_dependency=True,
+   inlang={"inputs": [], "filter": "\"yx\" | [match(\"(?:(x)|(y))+\")] | length == 1", "expect": "true", "doc": "fixed filter: a match whose second capture group starts before the first"})
+ob("O-C13-offset3", ["C13", "C05"], S, "c13_char_of_byte_3", "ByteChar::char_of_byte: the same on all byte strings of length <= 3", ["jaq-std/src/regex.rs::ByteChar::char_of_byte", "jaq-std/src/regex.rs::ByteChar::new"], label="bounded", bound="all byte strings of length <= 3, all pairs of boundary offsets", composes_dependency=True, tier="thorough")
 ob("O-C11-once", ["C11"], S, "c11_once_or_empty", "once_or_empty: Ok(Some x) -> [Ok x], Ok(None) -> [], Err e -> [Err e]", [STD + "once_or_empty"], kind="contract")
 
 # ------------------------------------------------------------------------------------ jaq-core
